@@ -35,6 +35,13 @@ Calibration
   for balance=True only sums, block shapes and values are demanded.
 * In a tuple/dict passed to rechunk, None / a missing axis mean "keep the current chunks" (in
   normalize_chunks they mean the full axis); the harness normaliser follows the rechunk docstring.
+
+Sibling facet (vf/mon/siblings.py): every case is also built a second time with ONE result-relevant parameter changed
+(the same source rechunked to another target (values compared block by block: the block structure is the result)).
+The two lazily built collections must not share output keys unless their stand-alone values are equal (label
+``<op>:<param>-not-in-name:siblings-share-keys``); for a seeded ~15 % of the cases both are also computed in one graph and
+compared with their stand-alone values (``<op>:<param>:differs-when-computed-with-sibling``).  Counters siblings_built /
+siblings_computed_together / siblings_with_different_values have floors.
 """
 from __future__ import annotations
 
